@@ -68,3 +68,344 @@ theorem listedOK_of_sums (F : Forest) (hs : F.SumsOK) (hn : F.NamesOK) : F.Liste
     exact ⟨by rw [listedSum_of_nodup fs sub n1]; exact h1, ihs h2 n2, ihn h3 n3⟩
 
 end Grcov.Stats
+
+/-! ## the tree described by the list of filed paths
+
+`P` is the list of (directory names, file name) the results were filed under, in order. -/
+namespace Grcov.Stats
+open Grcov AList
+
+abbrev Placed := List (List Name × Name)
+
+/-- names of the files filed directly at this node -/
+def rootFiles (P : Placed) : List Name := (P.filter fun p => p.1 = []).map (·.2)
+/-- first directory names of the paths that go below this node -/
+def headsOf (P : Placed) : List Name := P.filterMap fun p => p.1.head?
+def stripOne (n : Name) (p : List Name × Name) : Option (List Name × Name) :=
+  match p.1 with
+  | d :: rest => if d = n then some (rest, p.2) else none
+  | [] => none
+/-- the paths that go through directory `n`, relative to it -/
+def strip (n : Name) (P : Placed) : Placed := P.filterMap (stripOne n)
+
+/-- the directories of one level are the ones the paths `P` describe, recursively -/
+def DescLevel : Forest → Placed → Prop
+  | .nil, _ => True
+  | .dir n _ fs sub next, P =>
+    (fs.map (·.name) = rootFiles (strip n P) ∧ sub.dirNames.Nodup ∧
+      (∀ d, d ∈ sub.dirNames ↔ d ∈ headsOf (strip n P)) ∧ DescLevel sub (strip n P)) ∧ DescLevel next P
+
+def NodeDesc (fs : List CDFile) (sub : Forest) (Q : Placed) : Prop :=
+  fs.map (·.name) = rootFiles Q ∧ sub.dirNames.Nodup ∧ (∀ d, d ∈ sub.dirNames ↔ d ∈ headsOf Q) ∧ DescLevel sub Q
+
+theorem descLevel_dir (n st fs sub next) (P : Placed) :
+    DescLevel (.dir n st fs sub next) P ↔ NodeDesc fs sub (strip n P) ∧ DescLevel next P := Iff.rfl
+
+@[simp] theorem strip_append (n : Name) (P Q : Placed) : strip n (P ++ Q) = strip n P ++ strip n Q := by
+  simp [strip]
+@[simp] theorem rootFiles_append (P Q : Placed) : rootFiles (P ++ Q) = rootFiles P ++ rootFiles Q := by
+  simp [rootFiles]
+@[simp] theorem headsOf_append (P Q : Placed) : headsOf (P ++ Q) = headsOf P ++ headsOf Q := by
+  simp [headsOf]
+
+theorem strip_single_same (d : Name) (rest : List Name) (x : Name) : strip d [(d :: rest, x)] = [(rest, x)] := by
+  simp [strip, stripOne]
+theorem strip_single_other {n d : Name} (h : d ≠ n) (rest : List Name) (x : Name) :
+    strip n [(d :: rest, x)] = [] := by
+  simp [strip, stripOne, h]
+theorem strip_single_nil (n x : Name) : strip n [([], x)] = [] := by simp [strip, stripOne]
+
+theorem strip_nil_of_not_head (d : Name) (P : Placed) (h : d ∉ headsOf P) : strip d P = [] := by
+  induction P with
+  | nil => rfl
+  | cons p P ih =>
+    obtain ⟨ds, x⟩ := p
+    cases ds with
+    | nil => simpa [strip, stripOne, headsOf] using ih (by simpa [headsOf] using h)
+    | cons a ds =>
+      have h' : ¬ d = a ∧ d ∉ headsOf P := by simpa [headsOf] using h
+      have : ¬ a = d := fun e => h'.1 e.symm
+      simpa [strip, stripOne, this] using ih h'.2
+
+/-- `DescLevel F` looks at `P` only through `strip` -/
+theorem descLevel_congr (F : Forest) (P Q : Placed) (h : ∀ m, strip m P = strip m Q) :
+    DescLevel F P ↔ DescLevel F Q := by
+  induction F with
+  | nil => exact Iff.rfl
+  | dir n st fs sub next _ ihn => simp only [DescLevel, h n, ihn]
+
+theorem descLevel_append_other (F : Forest) (P : Placed) (d : Name) (rest : List Name) (x : Name)
+    (h : d ∉ F.dirNames) : DescLevel F (P ++ [(d :: rest, x)]) ↔ DescLevel F P := by
+  induction F with
+  | nil => exact Iff.rfl
+  | dir n st fs sub next _ ihn =>
+    simp only [Forest.dirNames, List.mem_cons, not_or] at h
+    simp only [DescLevel, strip_append, strip_single_other h.1, List.append_nil, ihn h.2]
+
+theorem mkChain_dirNames (d : Name) (rest : List Name) (f : CDFile) : (mkChain d rest f).dirNames = [d] := by
+  cases rest <;> rfl
+
+theorem mkChain_desc (f : CDFile) : ∀ (rest : List Name) (d : Name) (Q : Placed),
+    strip d Q = [(rest, f.name)] → DescLevel (mkChain d rest f) Q
+  | [], d, Q, h => by
+    simp [mkChain, DescLevel, h, rootFiles, headsOf, Forest.dirNames]
+  | d' :: rest', d, Q, h => by
+    simp only [mkChain, DescLevel, h, and_true]
+    refine ⟨by simp [rootFiles], by simp [mkChain_dirNames], ?_, ?_⟩
+    · intro x; simp [mkChain_dirNames, headsOf]
+    · exact mkChain_desc f rest' d' _ (strip_single_same d' rest' f.name)
+
+theorem dirNames_insert (F : Forest) (d : Name) (rest : List Name) (f : CDFile) :
+    (F.insert d rest f).dirNames = if d ∈ F.dirNames then F.dirNames else F.dirNames ++ [d] := by
+  induction F with
+  | nil => simp [Forest.insert, mkChain_dirNames, Forest.dirNames]
+  | dir n st fs sub next _ ihn =>
+    unfold Forest.insert
+    by_cases hn : n = d
+    · subst hn
+      cases rest <;> simp [Forest.dirNames]
+    · have hd : ¬ d = n := fun e => hn e.symm
+      simp only [hn, if_false, Forest.dirNames, ihn, List.mem_cons, hd, false_or]
+      split <;> simp
+
+/-- filing one more path keeps the description -/
+theorem descLevel_insert (f : CDFile) : ∀ (F : Forest) (P : Placed) (d : Name) (rest : List Name),
+    F.dirNames.Nodup → (d ∉ F.dirNames → strip d P = []) → DescLevel F P →
+    DescLevel (F.insert d rest f) (P ++ [(d :: rest, f.name)])
+  | .nil, P, d, rest, _, hfree, _ => by
+    apply mkChain_desc
+    simp [strip_append, hfree (by simp [Forest.dirNames]), strip_single_same]
+  | .dir n st fs sub next, P, d, rest, hU, hfree, hD => by
+    obtain ⟨⟨h1, h2, h3, h4⟩, h5⟩ := hD
+    simp only [Forest.dirNames, List.nodup_cons] at hU
+    unfold Forest.insert
+    by_cases hn : n = d
+    · subst hn
+      simp only [if_true]
+      cases rest with
+      | nil =>
+        refine ⟨⟨?_, h2, ?_, ?_⟩, (descLevel_append_other next P n [] f.name hU.1).mpr h5⟩
+        · simp [strip_append, strip_single_same, h1, rootFiles]
+        · intro x; simp [strip_append, strip_single_same, h3 x, headsOf]
+        · refine (descLevel_congr sub _ (strip n P) ?_).mpr h4
+          intro m; simp [strip_append, strip_single_same, strip_single_nil]
+      | cons d' rest' =>
+        refine ⟨⟨?_, ?_, ?_, ?_⟩, (descLevel_append_other next P n _ f.name hU.1).mpr h5⟩
+        · simp [strip_append, strip_single_same, h1, rootFiles]
+        · rw [dirNames_insert]; split
+          · exact h2
+          · rename_i hnot
+            exact List.nodup_append.mpr ⟨h2, by simp, by
+              intro a ha b hb; simp at hb; subst hb; intro e; subst e; exact hnot ha⟩
+        · intro x
+          rw [dirNames_insert]
+          simp only [strip_append, strip_single_same, headsOf_append]
+          have : headsOf [(d' :: rest', f.name)] = [d'] := by simp [headsOf]
+          rw [this]
+          split
+          · rename_i hin
+            simp only [List.mem_append, List.mem_singleton, ← h3 x]
+            constructor
+            · intro hx; exact .inl hx
+            · rintro (hx | rfl)
+              · exact hx
+              · exact hin
+          · simp [h3 x]
+        · simp only [strip_append, strip_single_same]
+          exact descLevel_insert f sub (strip n P) d' rest' h2
+            (fun hnot => strip_nil_of_not_head d' _ (fun hh => hnot ((h3 d').mpr hh))) h4
+    · have hd : d ≠ n := fun e => hn e.symm
+      simp only [hn, if_false]
+      refine ⟨⟨?_, h2, ?_, ?_⟩, ?_⟩
+      · simpa [strip_append, strip_single_other hd] using h1
+      · intro x; simpa [strip_append, strip_single_other hd] using h3 x
+      · simpa [strip_append, strip_single_other hd] using h4
+      · exact descLevel_insert f next P d rest hU.2
+          (fun hnot => hfree (by simp [Forest.dirNames, hd, hnot])) h5
+
+/-- the guard on the filed paths: pairwise distinct, and no file path is a directory of another -/
+structure PGuard (P : Placed) : Prop where
+  distinct : P.Nodup
+  noFileDir : ∀ p ∈ P, ∀ p' ∈ P, ¬ (p.1 ++ [p.2]) <+: p'.1
+
+theorem stripOne_inj (n : Name) {p q r} (hp : stripOne n p = some r) (hq : stripOne n q = some r) : p = q := by
+  obtain ⟨pd, px⟩ := p; obtain ⟨qd, qx⟩ := q
+  unfold stripOne at hp hq
+  cases pd with
+  | nil => simp at hp
+  | cons a pd =>
+    cases qd with
+    | nil => simp at hq
+    | cons b qd =>
+      simp only at hp hq
+      split at hp
+      · split at hq
+        · rename_i e1 e2
+          simp only [Option.some.injEq] at hp hq
+          rw [← hq] at hp
+          cases hp
+          rw [e1, e2]
+        · cases hq
+      · cases hp
+
+theorem nodup_filterMap_inj {α β : Type} (g : α → Option β)
+    (hinj : ∀ a b c, g a = some c → g b = some c → a = b) :
+    ∀ (l : List α), l.Nodup → (l.filterMap g).Nodup
+  | [], _ => by simp
+  | a :: l, h => by
+    obtain ⟨h1, h2⟩ := List.nodup_cons.mp h
+    cases hg : g a with
+    | none => simpa [List.filterMap_cons, hg] using nodup_filterMap_inj g hinj l h2
+    | some c =>
+      rw [List.filterMap_cons, hg]
+      refine List.nodup_cons.mpr ⟨?_, nodup_filterMap_inj g hinj l h2⟩
+      intro hc
+      obtain ⟨b, hb, hgb⟩ := List.mem_filterMap.mp hc
+      exact h1 (hinj a b c hg hgb ▸ hb)
+
+theorem mem_strip {n : Name} {P : Placed} {q : List Name × Name} (h : q ∈ strip n P) :
+    (n :: q.1, q.2) ∈ P := by
+  obtain ⟨p, hp, hs⟩ := List.mem_filterMap.mp h
+  obtain ⟨pd, px⟩ := p
+  unfold stripOne at hs
+  cases pd with
+  | nil => simp at hs
+  | cons a pd =>
+    simp only at hs
+    split at hs
+    · rename_i e; subst e; simp only [Option.some.injEq] at hs; subst hs; exact hp
+    · cases hs
+
+theorem PGuard.strip {P : Placed} (g : PGuard P) (n : Name) : PGuard (strip n P) :=
+  ⟨nodup_filterMap_inj _ (fun _ _ _ => stripOne_inj n) P g.distinct, by
+    intro q hq q' hq' hpre
+    have := g.noFileDir _ (mem_strip hq) _ (mem_strip hq')
+    exact this (by simpa using hpre)⟩
+
+theorem nodup_map_of_inj_on {α β : Type} (f : α → β) :
+    ∀ (l : List α), l.Nodup → (∀ a ∈ l, ∀ b ∈ l, f a = f b → a = b) → (l.map f).Nodup
+  | [], _, _ => by simp
+  | a :: l, h, hinj => by
+    obtain ⟨h1, h2⟩ := List.nodup_cons.mp h
+    refine List.nodup_cons.mpr ⟨?_, nodup_map_of_inj_on f l h2 (fun x hx y hy => hinj x (by simp [hx]) y (by simp [hy]))⟩
+    intro hm
+    obtain ⟨b, hb, hfb⟩ := List.mem_map.mp hm
+    exact h1 (hinj a (by simp) b (by simp [hb]) hfb.symm ▸ hb)
+
+theorem names_of_nodeDesc {fs : List CDFile} {sub : Forest} {Q : Placed} (g : PGuard Q)
+    (h : NodeDesc fs sub Q) : (fs.map (·.name) ++ sub.dirNames).Nodup := by
+  obtain ⟨h1, h2, h3, _⟩ := h
+  rw [h1]
+  refine List.nodup_append.mpr ⟨?_, h2, ?_⟩
+  · unfold rootFiles
+    refine nodup_map_of_inj_on _ _ (List.Pairwise.filter _ g.distinct) ?_
+    intro a ha b hb hab
+    simp only [List.mem_filter, decide_eq_true_eq] at ha hb
+    obtain ⟨ad, ax⟩ := a; obtain ⟨bd, bx⟩ := b
+    simp only at ha hb hab
+    rw [ha.2, hb.2, hab]
+  · intro x hx y hy hxy
+    subst hxy
+    unfold rootFiles at hx
+    obtain ⟨p, hp, hpx⟩ := List.mem_map.mp hx
+    simp only [List.mem_filter, decide_eq_true_eq] at hp
+    have hh := (h3 x).mp hy
+    unfold headsOf at hh
+    obtain ⟨p', hp', hhead⟩ := List.mem_filterMap.mp hh
+    refine g.noFileDir p hp.1 p' hp' ?_
+    obtain ⟨pd', px'⟩ := p'
+    cases pd' with
+    | nil => simp at hhead
+    | cons a rest =>
+      simp only [List.head?_cons, Option.some.injEq] at hhead
+      rw [hp.2, hpx, hhead]
+      simp
+
+/-- with the guard, every directory described by `P` has children with pairwise distinct names -/
+theorem namesOK_of_desc : ∀ (F : Forest) (P : Placed), PGuard P → DescLevel F P → F.NamesOK
+  | .nil, _, _, _ => trivial
+  | .dir n _ fs sub next, P, g, h => by
+    obtain ⟨hnode, hnext⟩ := h
+    exact ⟨names_of_nodeDesc (g.strip n) hnode, namesOK_of_desc sub _ (g.strip n) hnode.2.2.2,
+      namesOK_of_desc next P g hnext⟩
+
+/-! ### the whole build -/
+
+theorem nodeDesc_insert (r : CDRoot) (P : Placed) (dirs : List Name) (f : CDFile)
+    (h : NodeDesc r.files r.sub P) :
+    NodeDesc (r.insert dirs f).files (r.insert dirs f).sub (P ++ [(dirs, f.name)]) := by
+  obtain ⟨h1, h2, h3, h4⟩ := h
+  cases dirs with
+  | nil =>
+    refine ⟨by simp [CDRoot.insert, h1, rootFiles], h2, ?_, ?_⟩
+    · intro x; simp [CDRoot.insert, h3 x, headsOf]
+    · refine (descLevel_congr r.sub _ P ?_).mpr h4
+      intro m; simp [strip_append, strip_single_nil]
+  | cons d rest =>
+    refine ⟨by simp [CDRoot.insert, h1, rootFiles], ?_, ?_, ?_⟩
+    · simp only [CDRoot.insert]
+      rw [dirNames_insert]; split
+      · exact h2
+      · rename_i hnot
+        exact List.nodup_append.mpr ⟨h2, by simp, by
+          intro a ha b hb; simp at hb; subst hb; intro e; subst e; exact hnot ha⟩
+    · intro x
+      simp only [CDRoot.insert]
+      rw [dirNames_insert]
+      have : headsOf [(d :: rest, f.name)] = [d] := by simp [headsOf]
+      simp only [headsOf_append, this]
+      split
+      · rename_i hin
+        simp only [List.mem_append, List.mem_singleton, ← h3 x]
+        constructor
+        · intro hx; exact .inl hx
+        · rintro (hx | rfl)
+          · exact hx
+          · exact hin
+      · simp [h3 x]
+    · exact descLevel_insert f r.sub P d rest h2
+        (fun hnot => strip_nil_of_not_head d _ (fun hh => hnot ((h3 d).mpr hh))) h4
+
+/-- the (directory names, file name) a result is filed under -/
+def placedPath (r : FileIn) : List Name × Name := (r.cdPath.dropLast, r.cdPath.getLastD [])
+
+theorem covdirBuild_desc (rs : List FileIn) :
+    NodeDesc (covdirBuild rs).files (covdirBuild rs).sub (rs.map placedPath) := by
+  have key : ∀ (rs : List FileIn) (root : CDRoot) (P : Placed), NodeDesc root.files root.sub P →
+      let out := rs.foldl (fun root r =>
+        let p := r.cdPath
+        root.insert p.dropLast (cdFileNew (p.getLastD []) r.cov.lines)) root
+      NodeDesc out.files out.sub (P ++ rs.map placedPath) := by
+    intro rs
+    induction rs with
+    | nil => intro root P h; simpa using h
+    | cons r rs ih =>
+      intro root P h
+      have := nodeDesc_insert root P r.cdPath.dropLast (cdFileNew (r.cdPath.getLastD []) r.cov.lines) h
+      have := ih _ _ this
+      simpa [placedPath, cdFileNew, List.append_assoc] using this
+  have := key rs ⟨.zero, [], .nil⟩ [] (by simp [NodeDesc, rootFiles, headsOf, Forest.dirNames, DescLevel])
+  simpa [covdirBuild] using this
+
+theorem setStats_dirNames (F : Forest) : F.setStats.dirNames = F.dirNames := by
+  induction F with
+  | nil => rfl
+  | dir n st fs sub next _ ihn => simp [Forest.setStats, Forest.dirNames, ihn]
+
+theorem setStats_namesOK (F : Forest) (h : F.NamesOK) : F.setStats.NamesOK := by
+  induction F with
+  | nil => trivial
+  | dir n st fs sub next ihs ihn =>
+    obtain ⟨h1, h2, h3⟩ := h
+    exact ⟨by simpa [setStats_dirNames] using h1, ihs h2, ihn h3⟩
+
+/-- with the guard on the filed paths, every directory of the tree the writer returns has children
+with pairwise distinct names -/
+theorem covdirTree_namesOK (rs : List FileIn) (g : PGuard (rs.map placedPath)) : (covdirTree rs).NamesOK := by
+  have hd := covdirBuild_desc rs
+  have h1 := names_of_nodeDesc g hd
+  have h2 := namesOK_of_desc _ _ g hd.2.2.2
+  exact ⟨by simpa [covdirTree, CDRoot.setStats, setStats_dirNames] using h1,
+    by simpa [covdirTree, CDRoot.setStats] using setStats_namesOK _ h2⟩
+
+end Grcov.Stats
